@@ -4,6 +4,8 @@ import (
 	"fmt"
 	"go/types"
 	"sort"
+
+	"golang.org/x/tools/go/ssa"
 )
 
 // State: symbolic store. locals are keyed by *ssa.Alloc / *ssa.Range / *ssa.Global; heap maps by
@@ -112,7 +114,8 @@ func (e *Engine) merge(ins []inEdge) *State {
 	log := e.cur.log
 	out := &State{locals: map[any]Val{}, heap: map[string]Term{}, epoch: ins[0].st.epoch}
 	// locals: keys present in all
-	for k, v0 := range ins[0].st.locals {
+	for _, k := range sortedLocalKeys(ins[0].st.locals) {
+		v0 := ins[0].st.locals[k]
 		all := true
 		for _, in := range ins[1:] {
 			if _, ok := in.st.locals[k]; !ok {
@@ -267,6 +270,42 @@ func (e *Engine) merge(ins []inEdge) *State {
 		out.hbound[k] = b0
 	}
 	return out
+}
+
+// Deterministic iteration: the fact log (fresh-name numbering, assertion order) must be the same on every run for
+// the same source, otherwise solver behaviour varies from run to run.
+func localKeyOrder(k any) string {
+	switch x := k.(type) {
+	case *ssa.Alloc:
+		fn := ""
+		if x.Parent() != nil {
+			fn = x.Parent().String()
+		}
+		return fmt.Sprintf("a|%s|%010d|%s", fn, x.Pos(), x.Name())
+	case *ssa.Range:
+		return fmt.Sprintf("r|%010d|%s", x.Pos(), x.Name())
+	case *ssa.Global:
+		return "g|" + x.String()
+	}
+	return fmt.Sprintf("z|%T|%v", k, k)
+}
+
+func sortedLocalKeys[V any](m map[any]V) []any {
+	keys := make([]any, 0, len(m))
+	for k := range m {
+		keys = append(keys, k)
+	}
+	sort.Slice(keys, func(i, j int) bool { return localKeyOrder(keys[i]) < localKeyOrder(keys[j]) })
+	return keys
+}
+
+func sortedKeys[V any](m map[string]V) []string {
+	keys := make([]string, 0, len(m))
+	for k := range m {
+		keys = append(keys, k)
+	}
+	sort.Strings(keys)
+	return keys
 }
 
 // heapBound: every reference stored in heap family name is below this allocation counter.
